@@ -2013,7 +2013,7 @@ def run(ctx):
                 'chains over views); random nesting into inner Networks (depth <= 4, empty ones included); every Network '
                 '(outer and inner) draws print_timing from {absent, False, True, 0, 0.0, 10.0, 1e9} and its construction form '
                 'from {positional, list, tuple, append, call, split append}; seeds on random subsets of outputs/intermediates/'
-                'sources (DyadCarrier seeds on DyadCarrier-typed signals); 30%: eligible signals (whole references, block-matrix '
+                'sources (DyadCarrier seeds on DyadCarrier-typed signals); 45%: eligible signals (whole references, block-matrix '
                 'consumers) carry a user-defined sensitivity type; 12% / 8%: a sensitivity-injecting / sink module without outputs; '
                 '35%: a construction history (post / bfs / dfs / random interleaving of the append() calls, evaluations of the '
                 'partial network and shadow networks in between, two design iterations).  A case is non-trivial when some seed reaches a '
@@ -2103,6 +2103,12 @@ def run(ctx):
             if not name.startswith('gen:') or replaying:
                 break
         if states is None:
+            continue
+        missing = [o for m in case['modules'] for o in m['outs'] if states[o] is None]
+        if missing:
+            ctx.violation('impl-violates', 'Network.response', 'every member module ran: every output signal has a state',
+                          'construction history' if case.get('history') else 'module DAG', dict(name=name, case=case),
+                          expected='states of all written signals', got=dict(signals_without_state=missing))
             continue
         if 'second' in info and info['second'] != sens:
             ctx.violation('impl-violates', 'Network.sensitivity', 'second design iteration (reset, response, seeds, sensitivity) '
